@@ -266,6 +266,18 @@ pub fn run_plan(plan: &Plan) -> RunOut {
         w.tracker.script.push((*lat, out, label));
     }
     w.tracker.repeat_latency = 250;
+    for (i, kind) in &plan.preexisting {
+        let i = *i as usize;
+        if i < torrent.pieces() {
+            let good = torrent.piece_data(i).to_vec();
+            let data = match kind {
+                0 => good,
+                1 => good[..good.len() / 2].to_vec(),
+                _ => good.iter().map(|b| b ^ 0x5A).collect(),
+            };
+            w.disk.files.insert(format!("/sim/cwd/{}.piece", crate::codec::hex_upper(&torrent.piece_hashes[i])), data);
+        }
+    }
     world::install(w);
     let mut hk = Rng64::sub(plan.seed, "hasher-keys");
     install_hooks((hk.next_u64(), hk.next_u64()));
